@@ -145,6 +145,28 @@ class FakeDispatcher(YowConnectionDispatcher):
             del self.out_buffer[:]
         self.sent += data
         self.writes.append(bytes(data))
+        rig = self.rig
+        if rig.eager_frames is not None and rig.server.state == "finish":
+            # a server that answers at once: the client's last handshake message is read as it is written, and the server's first
+            # stanzas are on their way back before the client's handshake thread has taken its next step (whether the network
+            # thread gets to them before the handshake completes is the scheduler's choice)
+            try:
+                rig.server.feed(bytes(self.sent))
+            except ProtocolViolation as e:
+                rig.eager_problems.append(e)
+            del self.sent[:]
+            if rig.server.state == "transport":
+                for f in rig.eager_frames:
+                    rig.server.send_frame(f)
+                out = rig.server.take_out()
+                rig.eager_frames = None
+                rig.eager_sent = True
+                if out:
+                    self.inbox.put(("data", bytes(out)))
+
+
+class UpperLayerFailed(Exception):
+    pass
 
 
 class Top(YowLayer):
@@ -157,9 +179,16 @@ class Top(YowLayer):
         self.passive = False
         self.auto_auth = True
         self.disconnect_on_tag = None     # like the auth layer on <failure>: ask for a disconnect from inside the delivery
+        self.raise_on_nth = None          # the layer above fails on the n-th thing delivered from now on (once)
+        self._n_since = 0
 
     def receive(self, d):
         self.got.append(d)
+        if self.raise_on_nth is not None:
+            self._n_since += 1
+            if self._n_since == self.raise_on_nth:
+                self.raise_on_nth = None
+                raise UpperLayerFailed("the layer above failed on a delivered stanza")
         if self.disconnect_on_tag is not None and getattr(d, "tag", None) == self.disconnect_on_tag:
             self.broadcastEvent(YowLayerEvent(YowNetworkLayer.EVENT_STATE_DISCONNECT, reason="requested by the layer above"))
 
@@ -186,6 +215,9 @@ class Rig(object):
         self.close_on_recv_error = False
         self.redundant_down = False
         self.hold_writes = False
+        self.eager_frames = None      # encoded stanzas the server sends the moment it has read the client's last handshake message
+        self.eager_problems = []
+        self.eager_sent = False
         self.writes_while_down = []
         self.server = server or NoiseServer()
         if profile is not None:
